@@ -158,6 +158,99 @@ theorem async_refines (locking : Bool) (D : Dev σ) (progs : List Prog) (sched :
   obtain ⟨l, hl⟩ := foldl_stepAsync_eq locking D progs sched (init D progs)
   exact ⟨l, hl⟩
 
+/-! ### histories in which callers give up while WAITING for the lock (task cancelled / timed out at the lock) -/
+
+/-- `run` is the special case without cancel events -/
+theorem runE_of_run (releases locking : Bool) (D : Dev σ) (progs : List Prog) (sched : List Nat) :
+    runE releases locking D progs (sched.map .run) = run locking D progs sched := by
+  unfold runE run
+  generalize init D progs = s
+  induction sched generalizing s with
+  | nil => rfl
+  | cons i rest ih => simp only [List.map_cons, List.foldl_cons]; exact ih _
+
+/-- a cancelled waiter abandons its operation without touching lock, wire, device or the outcome log -/
+theorem cancel_keeps_lock (progs : List Prog) (s : St σ) (i : Nat) :
+    (cancelWaiting false progs s i).lock = s.lock ∧ (cancelWaiting false progs s i).world = s.world ∧
+    (cancelWaiting false progs s i).finished = s.finished := by
+  rcases cancel_cases false progs s i with he | ⟨c, _, _, he⟩ <;> rw [he] <;> simp
+
+/-- **mutual exclusion** for every history of run / cancel-while-waiting events -/
+theorem mutual_exclusion_cancel (D : Dev σ) (progs : List Prog) (evs : List SEv) (i j : Nat) (ci cj : Caller)
+    (hi : (runE false true D progs evs).callers[i]? = some ci) (hj : (runE false true D progs evs).callers[j]? = some cj)
+    (hci : ci.cur.isSome = true) (hcj : cj.cur.isSome = true) :
+    i = j ∧ (runE false true D progs evs).lock = some i := by
+  have h := inv_runE D progs evs
+  have h1 := h.held i ci hi hci
+  have h2 := h.held j cj hj hcj
+  rw [h1] at h2
+  exact ⟨by cases h2; rfl, h1⟩
+
+/-- **no interleaving** for every history of run / cancel-while-waiting events -/
+theorem no_interleave_cancel (D : Dev σ) (progs : List Prog) (evs : List SEv) (a b c : Nat)
+    (hc : c < (runE false true D progs evs).world.wire.length) (hab : a < b) (hbc : b < c) :
+    let tr := (runE false true D progs evs).world.wire
+    tr[a].key = tr[c].key → tr[b].key = tr[a].key := by
+  intro tr hk
+  have h := (inv_runE D progs evs).nogap
+  exact h a b c tr[a] tr[b] tr[c] hab hbc (List.getElem?_eq_getElem _) (List.getElem?_eq_getElem _)
+    (List.getElem?_eq_getElem _) hk
+
+/-- **lock released / kept** for such histories: an event that ends an operation leaves the lock free;
+    the lock is taken exactly while somebody is inside; a cancel event never changes it -/
+theorem lock_released_cancel (D : Dev σ) (progs : List Prog) (evs : List SEv) (ev : SEv)
+    (hend : (stepE false true D progs (runE false true D progs evs) ev).finished.length
+              = (runE false true D progs evs).finished.length + 1) :
+    (stepE false true D progs (runE false true D progs evs) ev).lock = none := by
+  cases ev with
+  | cancel i =>
+    have := (cancel_keeps_lock progs (runE false true D progs evs) i).2.2
+    simp only [stepE] at hend
+    rw [this] at hend
+    omega
+  | run i =>
+    simp only [stepE] at hend ⊢
+    have hcase := step_cases true D progs (runE false true D progs evs) i
+    generalize step true D progs (runE false true D progs evs) i = s' at hcase hend
+    cases hcase with
+    | skip => omega
+    | empty c hc hcur hop hfree => rfl
+    | fail c st rest hc hcur hf => rfl
+    | last c st hc hcur hf => rfl
+    | enter c st rest hc hcur hop hfree => simp [acqSt] at hend
+    | cont c st rest hc hcur hf hne => simp [contSt] at hend
+
+theorem lock_free_iff_idle_cancel (D : Dev σ) (progs : List Prog) (evs : List SEv) :
+    (runE false true D progs evs).lock = none ↔
+      ∀ (i : Nat) (c : Caller), (runE false true D progs evs).callers[i]? = some c → c.cur = none := by
+  have h := inv_runE D progs evs
+  constructor
+  · intro hl i c hc
+    cases hcur : c.cur with
+    | none => rfl
+    | some l => have := h.held i c hc (by simp [hcur]); rw [hl] at this; cases this
+  · intro hall
+    cases hl : (runE false true D progs evs).lock with
+    | none => rfl
+    | some i =>
+      obtain ⟨c, hc, hs⟩ := h.holder i hl
+      rw [hall i c hc] at hs; simp at hs
+
+/-- **serial equivalence** for such histories: cancelled operations never ran and are in no log -/
+theorem serializable_cancel (D : Dev σ) (progs : List Prog) (evs : List SEv)
+    (hq : (runE false true D progs evs).lock = none) :
+    serial D progs ((runE false true D progs evs).finished.map (·.1)) =
+      ((runE false true D progs evs).world, (runE false true D progs evs).finished) := by
+  have h := sinv_runE D progs evs
+  simp only [SInv, orderOf, complete, hq, List.append_nil] at h
+  exact h
+
+/-- asyncio granularity with cancel events is again a special case -/
+theorem async_refines_cancel (releases locking : Bool) (D : Dev σ) (progs : List Prog) (evs : List SEv) :
+    ∃ evs', runEAsync releases locking D progs evs = runE releases locking D progs evs' := by
+  obtain ⟨l, hl⟩ := foldl_stepEAsync_eq releases locking D progs evs (init D progs)
+  exact ⟨l, hl⟩
+
 /-! ### contrast: channel_lock off -/
 
 def exW (s : String) : Step := ⟨.write (ofString s), false⟩
@@ -181,6 +274,28 @@ theorem unlocked_can_interleave :
 /-- the same programs under the same schedule with the lock on: caller 0's whole block, then caller 1's -/
 example : ((run true exDev exProgs (exSched ++ exSched)).world.wire.map (·.caller)) = [0, 0, 0, 0, 1, 1, 1, 1] := by
   decide +kernel
+
+/-! ### contrast: release on cancel while waiting -/
+
+/-- three callers, caller 1 only ever waits -/
+def exProgs3 : List Prog := exProgs ++ [[[exW "show c", exR, exW "\n", exR]]]
+/-- caller 0 enters and writes; caller 1 is cancelled while waiting; caller 2 is scheduled twice; caller 0 goes on -/
+def exCancel : List SEv := [.run 0, .run 0, .cancel 1, .run 2, .run 2, .run 0]
+
+/-- **release on cancel while waiting is wrong** (the variant `releases = true`: a `finally: release()` that
+    also covers the `await acquire()`; asyncio.Lock.release() does not check ownership): caller 1, cancelled
+    while it waits, frees caller 0's lock; caller 2 enters and writes between two calls of caller 0's
+    operation, both are inside at once, and caller 0 reads caller 2's echo. -/
+theorem release_on_cancel_interleaves :
+    let s := runE true true exDev exProgs3 exCancel
+    s.world.wire.map (·.caller) = [0, 2, 0] ∧
+    (s.world.wire[2]?.map Ev.data) = some (ofString "show ashow c") ∧
+    ((s.callers[0]?.map (·.cur.isSome)) = some true ∧ (s.callers[2]?.map (·.cur.isSome)) = some true) := by
+  decide +kernel
+
+/-- the same history with the code's semantics: caller 2 stays out until caller 0 is done -/
+example : ((runE false true exDev exProgs3 exCancel).world.wire.map (·.caller)) = [0, 0] ∧
+    (runE false true exDev exProgs3 exCancel).lock = some 0 := by decide +kernel
 
 /-! ### the tie to the source: generated from the AST of both channel files, decided -/
 open Scrapli.Gen.LockCoverage
